@@ -1,6 +1,8 @@
 //! xv — worker process of the xeh runtime-monitoring harness.
 //! usage: xv <Cxx> --seed S --shard I --nshards N --cases K [--only IDX] [--mode M] --out FILE
 mod g1;
+mod g1gen;
+mod g1run;
 mod mon;
 mod render;
 mod util;
@@ -64,6 +66,9 @@ fn parse_args() -> Args {
 
 fn main() {
     let args = parse_args();
+    if std::env::var("RUST_BACKTRACE").is_err() {
+        std::env::set_var("RUST_BACKTRACE", "0");
+    }
     install_panic_hook();
     #[cfg(not(miri))]
     set_mem_limit(3 << 30);
